@@ -203,6 +203,8 @@ class Exec(ExprMixin, StmtMixin, LoopMixin, ModelMixin):
             return T.mkmap(v.n, self.arr_of_fn(v.n, v.key), self.arr_of_fn(v.n, v.val))
         if isinstance(v, ExcSym):
             return z3.Const("excval!" + str(v.term), T.Val)
+        if type(v).__name__ == "FingerprintV":
+            return T.fpF(v.opt, self.kset_term(v.ks)) if getattr(v, "opt", None) is not None else self.fresh("fp", T.Val)
         if type(v).__name__ == "TypeOf":
             return z3.Function("typeof", T.Val, T.Val)(self.as_val(v.v))
         if isinstance(v, Delayed):
@@ -523,6 +525,11 @@ class Exec(ExprMixin, StmtMixin, LoopMixin, ModelMixin):
             return Sym("val", t)
         if kind == "val":
             return Sym("val", uf("", T.Val)(rt))
+        if kind == "heapdict":
+            name = f"hd!{base}"
+            if name not in self.heap:
+                self.heap[name] = (z3.Const(name + "#p", z3.ArraySort(T.Val, T.B)), z3.Const(name + "#v", z3.ArraySort(T.Val, T.Val)))
+            return HeapMap(name, "val", "val")
         if kind == "arrdict":
             return ArrDict(uf("#p", z3.ArraySort(T.Val, T.B))(rt), uf("#v", z3.ArraySort(T.Val, T.Val))(rt))
         if kind == "lock":
@@ -616,6 +623,8 @@ class Exec(ExprMixin, StmtMixin, LoopMixin, ModelMixin):
                     return "map_ev", ("strkeys" if parts[0].strip() == "str" else None)
                 if h2 in ("Handler",):
                     return "arrdict", None
+                if parts[0].strip() == "bytes":
+                    return "heapdict", None
             return "val", None
         if head.endswith("Lock"):
             return "lock", None
